@@ -24,17 +24,26 @@ double is such a fraction; the tie passes `Fraction(abs(x))` and the sign bit, s
 `'{:.6f}'` prints the exact binary value correctly rounded to 6 decimals, ties to even: `round6`.  What
 `float(text)` gives back is carried as the decimal that stood in the file (`FVal.dec`, sign-magnitude,
 `Infretis.Codec.Dec`) or NaN; the decimal → double rounding on reading is outside the model.
+±∞ (`FIn.inf`, `FVal.inf`): `'{:.6f}'` prints `inf` / `-inf`, `float()` reads them back.
+
+Characters.  Text is `List Char` = Unicode code points (the files are opened with encoding utf-8); white space is
+Python's complete set (`Model/StoreWs.lean`), so `strip()` / `split()` / the comment test behave as in Python on
+non-ASCII text too (U+00A0, U+0085, U+2000–200A, U+3000 … separate tokens).  Digits are ASCII only: a token of
+non-ASCII digits (which `int()` / `float()` accept) is outside the reader domain.
 
 Reader domain.  Python's `int()` / `float()` accept more spellings than the writers produce (`+1`, `1_0`,
-`1e5`, `inf`, `.5`, fewer or more decimals …).  `pyInt` accepts `-`?digits, `pyFloat` accepts `nan`,
+`1e5`, `inf`, `.5`, fewer or more decimals …).  `pyInt` accepts `-`?digits, `pyFloat` accepts `nan`, `inf`, `-inf`,
 `-`?digits and `-`?digits`.`dddddd (exactly six); everything else is `none` (→ ValueError).  The tie does not
 compare the model on files holding a token Python accepts and the model does not.
 No imports outside core and other model files: this file is part of the compiled driver.
 -/
 import Infretis.Model.Codec
 import Infretis.Model.StorePath
+import Infretis.Model.StoreWs
 namespace Infretis.StoreText
-open Infretis.Codec (isWs strip splitWs pyLines unlines Dec natDigits intDigits fmtFixed joinSp digitsVal parseCore)
+-- `isWs`, `strip`, `splitWs` are the ones of `Model/StoreWs.lean` (Python's complete white-space set),
+-- NOT `Infretis.Codec`'s ASCII-only ones
+open Infretis.Codec (pyLines unlines Dec natDigits intDigits fmtFixed joinSp digitsVal parseCore)
 open Infretis.Store (Err PathObj Fill fill idx0)
 
 abbrev Str := List Char
@@ -48,6 +57,7 @@ def padL (w : Nat) (s : Str) : Str := List.replicate (w - s.length) ' ' ++ s
 inductive FIn where
   | num (neg : Bool) (n d : Nat)
   | nan
+  | inf (neg : Bool)      -- `float("inf")` / `float("-inf")`
 deriving DecidableEq, Repr
 
 /-- magnitude of `'{:.6f}'`: `n/d · 10⁶` rounded to the nearest integer, ties to even -/
@@ -61,20 +71,25 @@ def round6 (n d : Nat) : Nat :=
 inductive FVal where
   | dec (d : Dec)
   | nan
+  | inf (neg : Bool)
 deriving DecidableEq, Repr
 
 /-- the value that stands in the file for `x` -/
 def written : FIn → FVal
   | .num neg n d => .dec ⟨neg, round6 n d⟩
   | .nan => .nan
+  | .inf neg => .inf neg
 
 def nanStr : Str := ['n', 'a', 'n']
+def infStr : Str := ['i', 'n', 'f']
+def ninfStr : Str := ['-', 'i', 'n', 'f']
 
 /-- `'{:>w.6f}'.format(x)` -/
 def fmtF (w : Nat) (x : FIn) : Str :=
   match written x with
   | .dec d => fmtFixed w 6 d
   | .nan => padL w nanStr
+  | .inf neg => padL w (if neg then ninfStr else infStr)
 
 /-- a phase point as far as storage is concerned (text level) -/
 structure TFrame where
@@ -201,6 +216,8 @@ def pyInt (s : Str) : Option Int :=
 /-- `float(tok)` on the reader domain -/
 def pyFloat (s : Str) : Option FVal :=
   if s = nanStr then some .nan
+  else if s = infStr then some (.inf false)
+  else if s = ninfStr then some (.inf true)
   else
     match parseCore 6 s with
     | some d => some (.dec d)
@@ -359,6 +376,7 @@ def expectedT (f : TFrame) : LFrameT :=
 def reIn : FVal → FIn
   | .dec d => .num d.neg d.mag 1000000
   | .nan => .nan
+  | .inf neg => .inf neg
 
 /-- a loaded phase point handed to `PathStorage.output` again (stored under a new number) -/
 def reframeT (dir : Str) (f : LFrameT) : TFrame :=
